@@ -73,6 +73,8 @@ size_t g_dec_len;
   (f)->header.meta.raw = in_meta; (f)->header.sequence = in_seq; (f)->header.address = in_addr; \
   (f)->header.blocksize = in_bsz;
 
+#ifdef RPP_UNIT_REGP
+
 /* ------------------------------------------------------------------------ */
 /* C06: matching API and helpers                                              */
 
@@ -256,6 +258,8 @@ void h_regp_process(void)
   VERIF_CANARY();
 }
 
+#endif /* RPP_UNIT_REGP */
+
 /* ------------------------------------------------------------------------ */
 /* C09: allocator front end, release                                          */
 
@@ -280,6 +284,7 @@ void h_block_free(void)
   VERIF_CANARY();
 }
 
+#ifdef RPP_UNIT_REGP
 void h_regp_free(void)
 {
   RPP_MAKE_P()
@@ -300,6 +305,9 @@ void h_setup_buffer(void)
   VERIF_CANARY();
 }
 
+#endif /* RPP_UNIT_REGP */
+
+#if defined(RPP_UNIT_REGP) && defined(RPP_UNIT_SINK)
 /* ------------------------------------------------------------------------ */
 /* C09: the continuable sink in any state of its invariant                    */
 
@@ -362,6 +370,9 @@ void h_cs_invariant_base(void)
   VERIF_CANARY();
 }
 
+#endif
+
+#ifdef RPP_UNIT_REGP
 /* ------------------------------------------------------------------------ */
 /* C09: early replies                                                         */
 
@@ -396,6 +407,9 @@ void h_early_erxoverflow(void)
   VERIF_CANARY();
 }
 
+#endif
+
+#if defined(RPP_UNIT_REGP) && defined(RPP_UNIT_SINK)
 /* ------------------------------------------------------------------------ */
 /* C09: the receiver                                                          */
 
@@ -434,3 +448,4 @@ void h_lemma_recv_process(void)
   (void)rc;
   VERIF_CANARY();
 }
+#endif
